@@ -34,6 +34,7 @@ func runC16(c *Ctx) {
 	checkErrorAssertionsLive(c, "R16.17")
 	checkImportersForceLabelChanges(c, "R16.18")
 	checkSinceSelectsIssuesOnly(c, "R16.19")
+	checkGitlabEventsNotComparedWithState(c, "R16.20")
 }
 
 // R16.1
